@@ -11,4 +11,5 @@ CONSTANTS
   MaxDials = 3
   MaxCalls = 6
   MaxStore = 2
+  Tails = TRUE
 INVARIANTS Emit RunAgrees
